@@ -168,7 +168,18 @@ fn eval_builtin_incbin(
                 query.report,
                 query.args[2].span)?;
 
-            start + size
+            match start.checked_add(size)
+            {
+                Some(end) => end,
+                None =>
+                {
+                    query.report.error_span(
+                        "value is out of supported range",
+                        query.args[2].span);
+
+                    return Err(());
+                }
+            }
         }
         else
         {
@@ -176,7 +187,8 @@ fn eval_builtin_incbin(
         }
     };
 
-    if bytes.len() == 0
+    if bytes.len() == 0 &&
+        query.args.len() == 1
     {
         return Ok(expr::Value::make_integer(util::BigInt::from_bytes_be(&[])));
     }
@@ -341,7 +353,18 @@ fn eval_builtin_incstr(
                 query.report,
                 query.args[2].span)?;
 
-            start + size
+            match start.checked_add(size)
+            {
+                Some(end) => end,
+                None =>
+                {
+                    query.report.error_span(
+                        "value is out of supported range",
+                        query.args[2].span);
+
+                    return Err(());
+                }
+            }
         }
         else
         {
@@ -349,7 +372,13 @@ fn eval_builtin_incstr(
         }
     };
 
-    if (start * bits_per_char) >= bigint_size
+    if bigint_size == 0 &&
+        query.args.len() == 1
+    {
+        return Ok(expr::Value::make_integer(bigint));
+    }
+
+    if start.saturating_mul(bits_per_char) >= bigint_size
     {
         query.report.error_span(
             format!(
@@ -361,7 +390,7 @@ fn eval_builtin_incstr(
         return Err(());
     }
 
-    if (end * bits_per_char) > bigint_size
+    if end.saturating_mul(bits_per_char) > bigint_size
     {
         query.report.error_span(
             format!(
